@@ -19,13 +19,14 @@ git merge --no-edit agent-$n >/var/tmp/merge-out.$$ 2>&1; grep -q "would be over
 for f in $(git diff --name-only --diff-filter=U); do
   case $f in
     coq/Gen/*.v|evidence/*.json|harness/go.sum) git checkout --ours -- $f 2>/dev/null || git rm -q --cached $f; git add $f 2>/dev/null ;;
-    known_findings.d/*.json) git checkout --theirs -- $f; git add $f ;;   # the builder's list; shas are remapped below
+    known_findings.d/*.json) git checkout --theirs -- $f; git add $f ;;
+    tools/claims/*.json) git checkout --theirs -- $f; git add $f ;;   # the builder's claim; coordinator add-ons are re-applied by tools/claims_addons.py   # the builder's list; shas are remapped below
     *) echo "CONFLICT in $f (resolve by hand)";;
   esac
 done
 if git diff --name-only --diff-filter=U | grep -q .; then git status --short | grep '^UU\|^AA'; exit 4; fi
 git commit -q --no-edit 2>/dev/null
-python3 tools/fix_shas.py >/dev/null; git diff --quiet -- known_findings.d known_findings.json || { git add known_findings.d known_findings.json; git commit -qm "known findings: fix shas remapped to /repo main"; }
+python3 tools/claims_addons.py; python3 tools/fix_shas.py >/dev/null; git diff --quiet -- known_findings.d known_findings.json || { git add known_findings.d known_findings.json; git commit -qm "known findings: fix shas remapped to /repo main"; }
 ./check --build || { echo "HARNESS BUILD FAILED"; exit 5; }
 git diff --quiet -- coq/Gen || { git add coq/Gen; git commit -qm "Gen: regenerated after merge of agent-$n"; }
 ( cd coq && coq_makefile -f _CoqProject -o Makefile >/dev/null && timeout 3000 make -j16 2>&1 | grep -v '^Closed under\|^COQC\|^COQDEP\|^make\|^CLEAN' | tail -20 )
